@@ -264,6 +264,16 @@ class Scenario:
         out = io.StringIO()
         outcomes = []
 
+        def main_update(name):
+            """the control system updates a monitored signal while the engine is paused (main thread, loop idle)"""
+            rec.ev("req", "update", name)
+            out = "ok"
+            try:
+                devs[name].put(1)
+            except BaseException as e:  # noqa
+                out = "exc:" + exc_kind(e)
+            rec.ev("reqret", "update", out)
+
         def do_call(op, fn):
             rec.ev("call", op, "ri" if (op == "run" and RE.record_interruptions) else "")
             try:
@@ -304,7 +314,34 @@ class Scenario:
                 d = decisions.pop(0) if decisions else "resume"
                 if d == "none":
                     break
+                if d.startswith("update:"):
+                    main_update(d.split(":", 1)[1])
+                    continue
                 do_call(d, getattr(RE, d))
+            # further calls on the same engine (histories: what one call leaves behind must not affect the next)
+            for nxt in sc.get("then", []):
+                if str(RE.state) != "idle":
+                    break
+                inj.clear()
+                for i in nxt.get("inject", []):
+                    inj.setdefault(i["at"], []).append(i)
+                loop.point = 0
+                loop._blocked_point_done = False
+                if "prog" in nxt["plan"]:
+                    plan2 = make_program_plan(nxt["plan"]["prog"], devs, futs)
+                else:
+                    plan2 = builtin_plan(nxt["plan"], devs)
+                plan2 = rec.wrap_plan(plan2)
+                decisions2 = list(nxt.get("decisions", []))
+                do_call("run", lambda: RE(plan2))
+                guard = 0
+                while str(RE.state) == "paused" and guard < 10:
+                    guard += 1
+                    d = decisions2.pop(0) if decisions2 else "resume"
+                    if d.startswith("update:"):
+                        main_update(d.split(":", 1)[1])
+                        continue
+                    do_call(d, getattr(RE, d))
         done_flag.set()
         self.points = loop.point
         self.outcomes = outcomes
@@ -322,6 +359,7 @@ class Scenario:
                     RE.halt()
         except BaseException:  # noqa
             pass
+        loop.set_exception_handler(lambda _l, _c: None)      # pending suspension waits etc. are dropped with the loop
         loop.call_soon_threadsafe(loop.stop)
         RE._th.join(5)
         try:
